@@ -376,7 +376,7 @@ Definition dims_fit (t : ctype) (rows cols : Z) : bool := if is_t t then rows <=
    parse_matrices declare a variable length array with bound 0; the proposed repair
    fixes/DC1_load_zero_dimensions.diff rejects dimensions below 1 - when it is applied this constant
    becomes 1 and nothing else changes. *)
-Definition min_dim : Z := 0.
+Definition min_dim : Z := 1.
 
 Definition parse_set (ver : Z) (n : node) : res cal :=
   match n with
